@@ -1,6 +1,7 @@
 """Forward zone analysis of one function over its CFG (join at merges, widening at loop heads, one narrowing pass),
 and the index-range obligations checked on the result (C13-D1, C02-D6)."""
 from .facts import AnalysisBroken
+from .zone import zone_is_ptr
 from . import zone
 from .zone import DBM, INF
 from .paths import BRANCH_TERMS
@@ -209,7 +210,7 @@ def analyse(fn, entry, post=None):
                 st.d.forget(v)
                 lv = fn.locals.get(e['decl'])
                 init = _decl_init(fn, e['decl'])
-                if zone.PTR_STEP is not None and lv is not None and lv['type'].endswith('*'):
+                if zone.PTR_STEP is not None and lv is not None and zone_is_ptr(lv['type']):
                     fake = {'k': 'DeclStmt', 'id': -1, 'decls': [dict({'var': e['decl']}, **({'init': init} if init is not None else {}))]}
                     zone.PTR_STEP(fn, st.d, fake)
                 if lv is not None and init is not None and lv['type'] in zone.INT_TYPES:
